@@ -2131,8 +2131,8 @@ def rule_overlap(ctx):
   rets = [t_[1] for t_ in w.terminals if t_[0] == "return"]
   K = 5
   loops = [li for li in w.loop_info.values() if li["visits"] and isinstance(li["visits"][0]["iter"], Poly) and li["visits"][0]["iter"] == blocks]
-  if len(loops) != 1 or len(rets) != 1:
-    ctx.record(R, f.where, "tallies of min(5, count) against the distribution", None, "expected one loop over the blocks and one result")
+  if len(loops) != 1 or not rets:
+    ctx.record(R, f.where, "tallies of min(5, count) against the distribution", None, "expected one loop over the blocks and a result")
   else:
     li = loops[0]
     vis = li["visits"][0]
@@ -2155,9 +2155,16 @@ def rule_overlap(ctx):
       if not (isinstance(pre, Poly) and pre == sym.mk("listrep", P("seq", Poly.const(0)), Poly.const(K + 1))):
         probs.append("the tallies do not start as %d zeros" % (K + 1))
       after = vis["after_env"].get(tv[0])
-      want = _call(MOD + ":ChiSquare", after, _call(MOD + ":OverlappingTemplateMatchingDistribution", pn, pm, Poly.const(K)), Poly.const(K))
-      if not (isinstance(rets[0], Poly) and isinstance(after, Poly) and rets[0] == want):
-        probs.append("the result is %r, not ChiSquare(tallies, Distribution(block length, m, 5), 5)" % (rets[0],))
+      dist = _call(MOD + ":OverlappingTemplateMatchingDistribution", pn, pm, Poly.const(K))
+      # the distribution may be taken from a memo filled in this very function under the same key (R-C12-PURE decides whether the key is complete)
+      memo = [sym.mk("idx", as_poly(e.data["base"]), as_poly(e.data["index"])) for e in w.events
+              if e.kind == "store" and isinstance(e.data["value"], Poly) and e.data["value"] == dist and not isinstance(e.data["index"], Seq)]
+      memo += [sym.mk("idx", as_poly(e.data["base"]), as_poly(e.data["index"])) for e in w.events
+               if e.kind == "store" and isinstance(e.data["value"], Poly) and e.data["value"] == dist and isinstance(e.data["index"], Seq)]
+      for rv in rets:
+        okr = isinstance(rv, Poly) and isinstance(after, Poly) and any(rv == _call(MOD + ":ChiSquare", after, d_, Poly.const(K)) for d_ in [dist] + memo)
+        if not okr:
+          probs.append("the result is %r, not ChiSquare(tallies, Distribution(block length, m, 5), 5)" % (rv,))
     for kind, val, st_, since, v_ in li["body_paths"]:
       if v_ is vis and kind not in ("fall", "continue"):
         probs.append("the loop over the blocks is left early")
